@@ -54,6 +54,11 @@ SCENARIOS = [
     ('named-update-except-header-2', 'update a.v = a.k + "!"', False, ['w', 'k', 'v']),
     # a dictionary-style field the (header-less) table does not provide: must fail the same way whatever ran before
     ('missing-dictionary-field', 'select a["k"], a["v"], NR', False),
+    # the same aggregates and the same group keys as 'group-all-aggregates' but over other arguments, and ANY_VALUE without a key: a store
+    # shared between queries (or between the columns of one query) keeps what another query put there for the same key
+    ('group-aggregates-other-arguments', 'select a1, COUNT(a3), MIN(NR), MAX(NR * 10), SUM(NR), AVG(NR), VARIANCE(NR), MEDIAN(NR), ARRAY_AGG(NR), ANY_VALUE(a3), ANY_VALUE(NR) group by a1', False),
+    ('any-value-no-key', 'select ANY_VALUE(a3), ANY_VALUE(a2), COUNT(*)', False),
+    ('any-value-no-key-filtered', 'select ANY_VALUE(a2 + a1), MAX(a2) where a1 != "b"', False),
 ]
 
 
